@@ -43,11 +43,11 @@ LTREE_MAXIMUM_SIZE = 65536
 def _gen_mime_type_pattern(strict, with_params):
     ows = "[ \\t]*"  # Optional WhiteSpace
     token = "[0-9A-Za-z!#$%&'*+.^_`|~-]+"
-    quotedString = "\"(?:[^\"\\\\]|\\.)*\""
+    quotedString = "\"([^\"\\\\]|\\.)*\""
     if strict:
         main_type = "(" \
                 "application|audio|font|example|image|message|model|multipart" \
-                "|text|video|x-(?:" + token + ")" \
+                "|text|video|x-(" + token + ")" \
             ")"
 
     else:
@@ -56,7 +56,7 @@ def _gen_mime_type_pattern(strict, with_params):
     if not with_params:
         return main_type + "/" + "(" + token + ")"
 
-    param = token + "=" + "(?:" + token + "|" + quotedString + ");?" + ows
+    param = token + "=" + "(" + token + "|" + quotedString + ");?" + ows
     params = \
         "(" + ";" \
              + "(" + ows + param + "(" + param + ")*" + ")?" \
